@@ -31,12 +31,15 @@ def hierarchies(w):
     shapes = gen.dag_shapes(1) + gen.dag_shapes(2) + gen.dag_shapes(3)
     shapes4 = gen.dag_shapes(4)
     kinds = ["method", "static", "class", "pget", "pset", "pdel", "init", "method", "new"]
+    # (the plan - which programs exist, in which order - comes from a stream that is the same in every shard, so that the running
+    # index means the same program everywhere; only the content of a program comes from the shard's own stream)
+    plan = __import__("random").Random("C16-plan/{}/{}".format(w.tier, getattr(w, "seed", 0)))
     rounds = 40 if thorough else 4
     idx = 0
     for rnd in range(rounds):
-        extra = rng.sample(shapes4, 40 if thorough else 12)
+        extra = plan.sample(shapes4, 40 if thorough else 12)
         for shape in shapes + extra:
-            for kind in (kinds if len(shape) <= 3 else rng.sample(kinds, 3)):
+            for kind in (kinds if len(shape) <= 3 else plan.sample(kinds, 3)):
                 for is_async in ((False, True) if kind in ("method", "static", "class") else (False,)):
                     idx += 1
                     if idx % w.nshards != w.shard:
